@@ -190,3 +190,28 @@ pub fn shrink_cmd(a: &[String]) -> i32 {
     println!("minimised={} weight {:?} -> {:?}", m.minimised, weight(&rf.tapes), weight(&m.tapes));
     0
 }
+
+/// `zsim confirm-shrink <raw> <out> <secs> <0|1>`: the step of the driver that executes recorded
+/// tapes - in a process of its own, because a shrink candidate (or the recorded run itself) may
+/// kill the process it runs in (allocation ceiling, stack overflow), and that must not be the driver.
+/// Exit 0: <out> written (minimised if asked and possible), <raw> updated with its fingerprint;
+/// exit 4: the recorded tapes do not reproduce the violation.
+pub fn confirm_shrink_cmd(a: &[String]) -> i32 {
+    let mut rf = match ReplayFile::load(Path::new(&a[0])) {
+        Ok(r) => r,
+        Err(e) => {
+            eprintln!("{e}");
+            return 2;
+        }
+    };
+    let key = rf.expect_key.clone();
+    match rf.exec(false) {
+        Ok(rep) if rep.keys().iter().any(|k| *k == key) => rf.expect_fingerprint = rep.fingerprint(),
+        _ => return 4,
+    }
+    rf.save(Path::new(&a[0]));
+    let secs: u64 = a.get(2).and_then(|s| s.parse().ok()).unwrap_or(12);
+    let m = if a.get(3).map(|s| s == "1").unwrap_or(true) { minimise(&rf, Duration::from_secs(secs)) } else { rf.clone() };
+    m.save(Path::new(&a[1]));
+    0
+}
